@@ -8,6 +8,9 @@ import Peppi.Lemmas.C10A
 import Peppi.Stream
 import Peppi.Hash
 import Peppi.Lemmas.Unified2
+import Peppi.Prog
+import Peppi.ReadProg
+import Peppi.ReadStream
 set_option linter.unusedVariables false
 namespace Peppi.Props.C11
 
@@ -62,5 +65,31 @@ theorem C11_range_any (T : TextOracle) (r : Replay) (s : Start) (gk : Option Gec
     ∃ g, readSlp T { skipFrames := false, computeHash := hash } (r.encodeAny s.version (portOccupancy s) gk) = .ok g ∧
       g.hashedLen = (if hash then some (r.encodeAny s.version (portOccupancy s) gk).length else none) :=
   _root_.Peppi.C11_range_any T r s gk h hash
+
+/- from `Peppi.Prog` -/
+open Peppi.Prog in
+theorem frag {α} (p : Prog α) : ∀ (h : HSrc),
+    (∀ a rest, p.run h.pieces.flatten = .ok (a, rest) →
+      ∃ s' used, p.runS h = .ok (a, ⟨s', h.fed.map (· ++ used)⟩) ∧ s'.flatten = rest ∧ h.pieces.flatten = used ++ rest) ∧
+    (∀ e, p.run h.pieces.flatten = .err e → ∃ e', p.runS h = .err e') ∧
+    (∀ x, p.run h.pieces.flatten = .panic x → p.runS h = .panic x) :=
+  _root_.Peppi.Prog.frag p
+
+/- from `Peppi.ReadProg` -/
+open Extracted Peppi.Prog in
+theorem run_readProg (T : TextOracle) (opts : Opts) (fuel : Nat) (x : Bytes) (hf : 2 * x.length + 2 ≤ fuel) :
+    (readProg T opts fuel).run x = readP T opts x :=
+  _root_.Peppi.Prog.run_readProg T opts fuel x hf
+
+/- from `Peppi.ReadStream` -/
+open Extracted Prog in
+theorem readSlpS_frag (T : TextOracle) (opts : Opts) (s : Stream) :
+    (∀ g, readSlp T opts s.flatten = .ok g →
+      ∃ fed, readSlpS T opts s = .ok (g, fed) ∧
+        (opts.computeHash = true → ∃ used rest, fed = some used ∧ s.flatten = used ++ rest ∧ g.hashedLen = some used.length) ∧
+        (opts.computeHash = false → fed = none ∧ g.hashedLen = none)) ∧
+    (∀ e, readSlp T opts s.flatten = .err e → ∃ e', readSlpS T opts s = .err e') ∧
+    (∀ p, readSlp T opts s.flatten = .panic p → readSlpS T opts s = .panic p) :=
+  _root_.Peppi.readSlpS_frag T opts s
 
 end Peppi.Props.C11
